@@ -283,3 +283,37 @@ Fixpoint repeat_list {A} (n : nat) (l : list A) : list A :=
 Definition mk_cfg (tests_par : list bool) (repeat : nat) (num_processes : nat) (maxfail : Z) : cfg :=
   let jobs := Nat.min num_processes (length tests_par * repeat) in
   mkcfg (repeat_list repeat (map (fun p => p && (1 <? jobs)) tests_par)) jobs maxfail (1 <? repeat).
+
+(* ------------------------------------------------------------------ the option layer *)
+(* -j/--num-processes is parsed by argparse with type=positive_int (mtest.py add_arguments,
+   fixed behaviour of pending/C12-num-processes-nonpositive.diff): a value <= 0 is a usage
+   error (exit status 2, nothing runs); an absent option takes determine_worker_count(),
+   which is not passed through `type`. *)
+Definition parse_jobs (n : Z) : option nat :=
+  if (n <=? 0)%Z then None else Some (Z.to_nat n).
+
+(* utils/universal.py:1328-1351 determine_worker_count(['MESON_TESTTHREADS']):
+   MESON_TESTTHREADS, then MESON_NUM_PROCESSES (the last one present prevails); a value that is
+   not an integer or is negative gives 1; 0 (or nothing set) gives the CPU count (1 if that fails) *)
+Inductive envval := EnvUnset | EnvInt (z : Z) | EnvGarbage.
+Definition env_workers (v : envval) (acc : Z) : Z :=
+  match v with
+  | EnvUnset => acc
+  | EnvInt z => if (z <? 0)%Z then 1%Z else z
+  | EnvGarbage => 1%Z
+  end.
+Definition determine_worker_count (testthreads numproc : envval) (cpus : nat) : nat :=
+  let n := env_workers numproc (env_workers testthreads 0%Z) in
+  if (n <=? 0)%Z then Nat.max cpus 1 else Z.to_nat n.
+
+Inductive cli := Rejected | Accepted (c : cfg).
+(* the configuration a command line leads to: opt = the -j value if given *)
+Definition cli_cfg (tests_par : list bool) (repeat : nat) (opt : option Z)
+           (testthreads numproc : envval) (cpus : nat) (maxfail : Z) : cli :=
+  match opt with
+  | Some n => match parse_jobs n with
+              | None => Rejected
+              | Some np => Accepted (mk_cfg tests_par repeat np maxfail)
+              end
+  | None => Accepted (mk_cfg tests_par repeat (determine_worker_count testthreads numproc cpus) maxfail)
+  end.
